@@ -568,7 +568,8 @@ class Evaluator:
             if isinstance(a, list) and isinstance(b, list): return a + b
             if isinstance(a, tuple) and isinstance(b, tuple): return a + b
             if isinstance(a, str) and isinstance(b, str): return a + b
-            if isinstance(a, (list, Comp)) and isinstance(b, (list, Comp)) or (isinstance(a, Opq) and a.k[0] in ('sorted', 'concat', 'list')) or (isinstance(b, Opq) and b.k[0] in ('sorted', 'concat', 'list')):
+            if isinstance(a, (list, Comp)) and isinstance(b, (list, Comp)) or (isinstance(a, Opq) and a.k[0] in ('sorted', 'concat', 'list')) or (isinstance(b, Opq) and b.k[0] in ('sorted', 'concat', 'list')) \
+                    or (isinstance(a, (list, Comp)) and isinstance(b, Poly) and b.as_atom() is not None and not isinstance(a, list)) or (isinstance(b, Comp) and isinstance(a, Poly) and a.as_atom() is not None):
                 parts_ = []
                 for x_ in (a, b): parts_ += list(x_.k[1:]) if (isinstance(x_, Opq) and x_.k[0] == 'concat') else [x_]
                 return Opq('concat', *parts_)
@@ -809,6 +810,9 @@ class Evaluator:
 
     def e_NamedExpr(s, e, env, mod, depth):
         v = s.ev(e.value, env, mod, depth); env[e.target.id] = v; return v
+
+    def e_Slice(s, e, env, mod, depth):
+        return Opq('slice', *[s.ev(x, env, mod, depth) if x is not None else None for x in (e.lower, e.upper, e.step)])
 
     def e_Starred(s, e, env, mod, depth):
         return Opq('*', s.ev(e.value, env, mod, depth))
